@@ -168,10 +168,14 @@ def g4(F, rep):
         ds = [d for d in ds if d != "var(start)"] or ds[:1]
         per_local.append(ds)
     via = any(re.match(r"^index\(var\(src\), RangeFrom\{var\(start\)\}\)$", d) for d in descs)
-    all_known = all(ds and all(re.match(ZL, d) or re.match(GZ, d) for d in ds) for ds in per_local)
+    # other arms may keep an offset of their own under the same name (`index + header_size` for zip): any `index + x` is an
+    # offset from the signature; only the zlib and gzip forms may feed a probe (counted below)
+    OFF = r"^Add\(var\(index\), .+\)(\.0)?$"
+    all_known = all(ds and all(re.match(OFF, d) for d in ds) for ds in per_local)
+    per_probe = [ds for ds in per_local if all(re.match(ZL, d) or re.match(GZ, d) for d in ds)]
     zl_direct = any(re.match(r"^index\(var\(src\), RangeFrom\{Add\(var\(index\), K2\)(\.0)?\}\)$", d) for d in descs)
     n_via = sum(1 for d in descs if re.match(r"^index\(var\(src\), RangeFrom\{var\(start\)\}\)$", d))
-    zl_local = via and all_known and n_via == len(per_local) and any(ds and all(re.match(ZL, d) for d in ds) for ds in per_local)
+    zl_local = via and all_known and n_via == len(per_probe) and any(ds and all(re.match(ZL, d) for d in ds) for ds in per_local)
     rep.add("G4", "zlib:payload-at-index+2", zl_direct or zl_local, b.where(probes[0][0]) if probes else "",
             "probe inputs: %s; start := %s" % (descs, per_local))
     rep.add("G4", "gzip:payload-after-header", via and all_known and any(ds and all(re.match(GZ, d) for d in ds) for ds in per_local), "", "start := %s" % per_local)
